@@ -69,6 +69,8 @@ def spec_strategy(draw, g, subs, nvdim, dtype):
             return ["const", [draw(st.booleans()) for _ in range(nvdim)]]
         if dtype == "complex":
             return ["constc", [[draw(st.integers(-5, 5)), draw(st.integers(-5, 5))] for _ in range(nvdim)]]
+        if nvdim > 1 and draw(st.integers(0, 5)) == 0:
+            return ["const", [0] * nvdim if draw(st.booleans()) else [0.0] * nvdim]
         if dtype == "int":
             return ["const", [draw(st.integers(-9, 9)) for _ in range(nvdim)]]
         return ["const", [draw(st.integers(-9, 9)) if draw(st.booleans()) else draw(st.integers(-90, 90)) / 8
@@ -151,6 +153,8 @@ def to_value(subspec, lat, nvdim, dtype):
     """library-facing value of a const / callable subspec"""
     if subspec[0] == "const":
         v = subspec[1]
+        if nvdim > 1 and all(x == 0 for x in v) and not any(isinstance(x, bool) for x in v):
+            return 0 if isinstance(v[0], int) else 0.0  # the plain number zero stands for the zero vector
         return v[0] if nvdim == 1 else tuple(v)
     if subspec[0] == "constc":
         v = [complex(a, b) for a, b in subspec[1]]
@@ -561,7 +565,8 @@ def check_reject(case):
     elif bad == "scalar-for-vector":
         if nvdim == 1:
             raise Reject()
-        val = 3.0
+        # any non-zero number (the number 0 alone is the documented "all components zero")
+        val = [3.0, -1, -1.0, 1, 2.5, 1e-300, 1j, np.float64(-1.0)][case["seed"] % 8]
     elif bad == "dict-no-default":
         # cover strictly less than the mesh
         covered = np.zeros(n, dtype=bool)
